@@ -1,6 +1,7 @@
 package main
 
 import (
+	"go/token"
 	"go/types"
 	"sort"
 	"strings"
@@ -497,6 +498,7 @@ type Leaf struct {
 func leaves(fl *Flow, v ssa.Value, at ssa.Instruction) []Leaf {
 	var out []Leaf
 	seen := map[*ssa.Phi]bool{}
+	seenAlloc := map[*ssa.Alloc]bool{}
 	var rec func(v ssa.Value, facts FactSet)
 	rec = func(v ssa.Value, facts FactSet) {
 		if ph, ok := v.(*ssa.Phi); ok {
@@ -518,6 +520,28 @@ func leaves(fl *Flow, v ssa.Value, at ssa.Instruction) []Leaf {
 				rec(e, m)
 			}
 			return
+		}
+		// load of a local variable (named results are spilled in functions with defers):
+		// every value stored into it is a possible definition
+		if u, ok := v.(*ssa.UnOp); ok && u.Op == token.MUL {
+			if a, ok := u.X.(*ssa.Alloc); ok && !seenAlloc[a] {
+				if _, spilled := fl.K.spill[a]; !spilled {
+					seenAlloc[a] = true
+					n := 0
+					for _, r := range *a.Referrers() {
+						if st, ok := r.(*ssa.Store); ok && st.Addr == a {
+							if u2, ok := st.Val.(*ssa.UnOp); ok && u2.X == a {
+								continue // `return x` re-stores the named result into itself
+							}
+							n++
+							rec(st.Val, fl.At(st))
+						}
+					}
+					if n > 0 {
+						return
+					}
+				}
+			}
 		}
 		out = append(out, Leaf{v, facts})
 	}
